@@ -460,7 +460,7 @@ struct World {
                 // exposed values: after every write the jar holds exactly the exposed, non-empty values, each with the life time of
                 // the session cookie.  A key that did not change in this request used to be left alone by cppcms (cookie missing /
                 // older value / older life time while the session lives on): that was the defect KNOWN_EXPOSED_SIG, fixed by
-                // 02b1ca1; it keeps its own signature.  (lifetime_too == false: regression case that shows the visible consequence only.)
+                // 752e2e8; it keeps its own signature.  (lifetime_too == false: regression case that shows the visible consequence only.)
                 bool forced = !isnew && cur.same(L);
                 for (auto &kv : cur.data) {
                     std::string name = pre + kv.first; auto p = jar.c.find(name);
